@@ -188,7 +188,13 @@ def run(repo, R):
     pcf = repo.func("gbasis.integrals.point_charge.point_charge_integral")
     R.note_function(pcf.qualname)
     check_wrapper_dispatch(repo, pcf, R, "FWD")
-    R.assumptions += ["point_charge_integral(basis, R, q)[a,b,k] == -q_k * integral phi_a phi_b / |r - R_k| (property C03)",
+    # the electronic term is sum_ab P_ab x (point-charge integral at the grid point): the potential is right only if those integrals
+    # are (C03).  The nuclear-attraction wrapper is not used here, its findings are not this property's.
+    from ..report import compose
+    from . import c03
+    compose(R, "C03", c03.run, repo, keep=lambda fd: "nuclear_electron_attraction" not in fd.site and "nuclear_electron_attraction" not in (fd.where or ""),
+            why="the electronic Coulomb potential is the density matrix contracted with the point-charge integrals at each point")
+    R.assumptions += ["point_charge_integral(basis, R, q)[a,b,k] == -q_k * integral phi_a phi_b / |r - R_k| (property C03, composed into this check)",
                       "elementwise abstraction: broadcasting adapters dropped, np.sum linear"]
     return ("FLOW + FORMULA on electrostatic_potential: D1 backward slice and comparison normal form of the condition that zeroes a "
             "nuclear term (depends on points/nuclear_coords/threshold only, strict `<`, Euclidean distance by sympy normal form); "
